@@ -16,6 +16,7 @@ import itertools
 import z3
 
 _counter = itertools.count()
+DEFS: list = []          # definitional axioms of fresh symbols introduced by value operations
 
 
 def fresh_name(base: str) -> str:
@@ -380,13 +381,21 @@ class VSet(Value):
         self.sort = SetS(elem)
     def term(self): return self.arr
     def has(self, x): return VBool(z3.Select(self.arr, _t(x)))
-    def truth(self): return VBool(self.arr != z3.K(self.elem.z3(), z3.BoolVal(False)))
-    def is_empty(self): return ~self.truth()
+    def truth(self):
+        x = z3.Const(fresh_name('ne'), self.elem.z3())
+        return VBool(z3.Exists([x], self.arr[x]))
+    def is_empty(self):
+        x = z3.Const(fresh_name('em'), self.elem.z3())
+        return VBool(z3.ForAll([x], z3.Not(self.arr[x])))
     def add(self, x): return VSet(z3.Store(self.arr, _t(x), z3.BoolVal(True)), self.elem)
     def discard(self, x): return VSet(z3.Store(self.arr, _t(x), z3.BoolVal(False)), self.elem)
     def _lam(self, f):
+        # a fresh array constant with a defining axiom (collected in DEFS and added to the path condition by
+        # the engine) instead of a lambda term: lambda arrays stored inside other arrays make z3 give up
         x = z3.Const(fresh_name('x'), self.elem.z3())
-        return VSet(z3.Lambda([x], f(x)), self.elem)
+        r = z3.Const(fresh_name('setop'), z3.ArraySort(self.elem.z3(), z3.BoolSort()))
+        DEFS.append(z3.ForAll([x], r[x] == f(x)))
+        return VSet(r, self.elem)
     def __or__(self, o): return self._lam(lambda x: z3.Or(self.arr[x], o.arr[x]))
     def __and__(self, o): return self._lam(lambda x: z3.And(self.arr[x], o.arr[x]))
     def __sub__(self, o): return self._lam(lambda x: z3.And(self.arr[x], z3.Not(o.arr[x])))
@@ -438,7 +447,9 @@ class VMap(Value):
         self.vs = vs
         self.sort = MapS(key, vs)
     def has(self, k): return VBool(z3.Select(self.dom, _t(k)))
-    def truth(self): return VBool(self.dom != z3.K(self.key.z3(), z3.BoolVal(False)))
+    def truth(self):
+        x = z3.Const(fresh_name('ne'), self.key.z3())
+        return VBool(z3.Exists([x], self.dom[x]))
     def at(self, k): return self.vs.wrap(z3.Select(self.val, _t(k)))
     def __getitem__(self, k): return self.at(k)
     def keys(self): return VSet(self.dom, self.key)
